@@ -227,7 +227,7 @@ class Outcome:
 
 
 def differential(out, stream, cases, impl_out, model_out, expected, describe, nontrivial=None, sample=None, classify=None,
-                 unspecified="-"):
+                 unspecified="-", impl_spec=None):
     """Compare implementation, model and Spec on one stream of cases.
     impl_out / model_out / expected are lists of canonical strings (views); expected may hold `unspecified`."""
     out.stream(stream, len(cases))
@@ -239,9 +239,10 @@ def differential(out, stream, cases, impl_out, model_out, expected, describe, no
         if m is not None and i != m and len(out.disagreements) < 50:
             out.disagreements.append({"stream": stream, "describe": d, "input": c, "impl": clip(i), "model": clip(m)})
         elif m is not None and i != m: out.disagreements.append(None)
-        if e != unspecified and i != e:
+        j = impl_spec[k] if impl_spec is not None else i      # the projection the Spec speaks about, when it differs from the view
+        if e != unspecified and j != e:
             if len(out.failing) < 50:
-                out.failing.append({"stream": stream, "describe": d, "input": c, "impl": clip(i), "expected": clip(e)})
+                out.failing.append({"stream": stream, "describe": d, "input": c, "impl": clip(j), "expected": clip(e)})
             else: out.failing.append(None)
         if sample is not None and len([s for s in out.samples if s.get("stream") == stream]) < 2:
             out.samples.append({"stream": stream, "case": clip(sample(c) if callable(sample) else c), "impl": clip(i)})
@@ -287,3 +288,12 @@ def write_evidence(prop, tier, seed, t0, coverage, assumptions_note, violations)
     tmp = os.path.join(ROOT, "evidence", prop + ".json.tmp")
     json.dump(ev, open(tmp, "w"), indent=1, sort_keys=True)
     os.replace(tmp, os.path.join(ROOT, "evidence", prop + ".json"))
+
+
+def load_corpus(prop):
+    """regression corpus: corpus/<prop>/*.json, each {"input": <case>, "note": ...}; runs first in every check"""
+    d = os.path.join(ROOT, "corpus", prop); out = []
+    if os.path.isdir(d):
+        for f in sorted(os.listdir(d)):
+            if f.endswith(".json"): out.append(unjson(json.load(open(os.path.join(d, f)))["input"]))
+    return out
